@@ -19,19 +19,19 @@ package zkencelg
 //@   use bits
 //@   nopanic[C05]
 //@   inline
-//@   requires public.C != nil && public.A != nil && public.B != nil && public.X != nil && pkok(public.Prover) && pkvals(public.Prover) && pkbig(public.Prover) && pedok(public.Aux) && (p != nil ==> shaped(p))
+//@   requires true && public.A != nil && public.B != nil && public.X != nil && pkok(public.Prover) && pkvals(public.Prover) && pkbig(public.Prover) && pedok(public.Aux) && (p != nil ==> shaped(p))
 
 //@ func (*Proof).Verify
 //@   use bits
 //@   nopanic[C05]
 //@   modifies hstate(hash)
-//@   requires hash != nil && hash.h != nil && public.C != nil && public.A != nil && public.B != nil && public.X != nil && pkok(public.Prover) && pkvals(public.Prover) && pkbig(public.Prover) && pedok(public.Aux) && (p != nil ==> shaped(p))
+//@   requires hash != nil && hash.h != nil && true && public.A != nil && public.B != nil && public.X != nil && pkok(public.Prover) && pkvals(public.Prover) && pkbig(public.Prover) && pedok(public.Aux) && (p != nil ==> shaped(p))
 
 //@ func challenge
 //@   use bits
 //@   nopanic[C05]
 //@   inline
-//@   requires hash != nil && hash.h != nil && group != nil && public.C != nil && public.A != nil && public.B != nil && public.X != nil && pkok(public.Prover) && pkvals(public.Prover) && pkbig(public.Prover) && pedok(public.Aux) && commitment != nil
+//@   requires hash != nil && hash.h != nil && group != nil && true && public.A != nil && public.B != nil && public.X != nil && pkok(public.Prover) && pkvals(public.Prover) && pkbig(public.Prover) && pedok(public.Aux) && commitment != nil
 //@   use absorb
 //@   ensures[C10] result1 == nil ==> absorbed(hstate(hash), habs(iface(public.C)))
 //@   ensures[C10] result1 == nil ==> absorbed(hstate(hash), habs(iface(public.A)))
